@@ -6,7 +6,7 @@ CONSTANTS
   Stations <- SmStations
   ArpSrcs <- SmArpSrcs
   Targets <- SmTargets
-  ArpTimeout = 7
+  ArpTimeout = 6
   BufTime = 5
   ArpGap = 4
   Period = 5
@@ -14,7 +14,7 @@ CONSTANTS
   FlowIdle = 10
   ArpForUnknowns = TRUE
   Strict = FALSE
-  Deltas <- SmDeltas
+  Deltas = {4, 5}
   D = 3
 INIT Init
 NEXT Next
